@@ -544,26 +544,26 @@ func dedupe(xs []string) []string {
 	return out
 }
 
-// bounds / assumptions are declared per property in /verif/harness/bounds.json
-type boundsFile map[string]struct {
+// bounds / assumptions are declared per property in /verif/harness/bounds/<id>.json
+type boundsEntry struct {
 	Quick       string   `json:"quick"`
 	Thorough    string   `json:"thorough"`
 	Assumptions []string `json:"assumptions"`
 	Outside     []string `json:"outside_claim"`
 }
 
-func loadBounds() boundsFile {
-	var b boundsFile
-	data, err := os.ReadFile(filepath.Join(verifDir, "harness", "bounds.json"))
-	if err == nil {
-		json.Unmarshal(data, &b)
+func loadBounds(id string) (boundsEntry, bool) {
+	var b boundsEntry
+	data, err := os.ReadFile(filepath.Join(verifDir, "harness", "bounds", id+".json"))
+	if err != nil {
+		return b, false
 	}
-	return b
+	json.Unmarshal(data, &b)
+	return b, true
 }
 
 func boundsFor(id, tier string) interface{} {
-	b := loadBounds()
-	e, ok := b[id]
+	e, ok := loadBounds(id)
 	if !ok {
 		return "see harness source"
 	}
@@ -575,6 +575,6 @@ func boundsFor(id, tier string) interface{} {
 }
 
 func assumptionsFor(id string) []string {
-	b := loadBounds()
-	return b[id].Assumptions
+	e, _ := loadBounds(id)
+	return e.Assumptions
 }
